@@ -201,7 +201,8 @@ class GroupOp(collections.namedtuple('GroupOp', 'rot trans cartrot indexmap')):
         ### that in a hash function. We lose a little bit on efficiency if we construct a set that
         ### has a whole lot of translation operations, but that's not usually what we will do.
         # return hash(self.rot.data.tobytes())
-        return hash(self.rot.data.tobytes()) ^ hash(self.indexmap)
+        # (rot as 64-bit integers: equal operations must hash equally whatever integer type rot was given in)
+        return hash(np.asarray(self.rot, dtype=np.int64).tobytes()) ^ hash(self.indexmap)
 
     def __add__(self, other):
         """Add a translation to our group operation"""
